@@ -25,6 +25,14 @@ FAMS = {
     "octal-escapes-closed-char": lambda n: "'" + "\\17" * n + "'",
     "x-escapes-without-digits": lambda n: "'" + "\\x" * n + "'",
     "mixed-escapes-wide-char": lambda n: "L'" + "\\1\\x2\\n" * n + "'",
+    # directive sub-scanners (their own regexes / loops)
+    "line-directive-unterminated-filename": lambda n: '#line 1 "' + "a" * n,
+    "line-directive-filename-backslashes-unterminated": lambda n: '# 1 "' + "a\\\\" * n,
+    "line-directive-filename-escapes-closed": lambda n: '# 1 "' + "\\a" * n + '" 1 2\nx',
+    "line-directive-digit-run": lambda n: "#line " + "1" * n + "x\n",
+    "line-directive-flag-run": lambda n: '# 1 "f" ' + "1 " * n + "x\n",
+    "pragma-long-line": lambda n: "#pragma " + "x " * n,
+    "pragma-blank-run": lambda n: "#pragma" + " \t" * n + "\n" + "# " * n,
 }
 f = FAMS[sys.argv[2]]
 def lex_time(text):
@@ -32,21 +40,72 @@ def lex_time(text):
     best = 1e9
     for _ in range(3):
         lx.input(text)
-        t0 = time.perf_counter(); k = 0
+        t0 = time.process_time(); k = 0
         while lx.token() is not None and k < 10 * len(text) + 10: k += 1
-        best = min(best, time.perf_counter() - t0)
+        best = min(best, time.process_time() - t0)
     return best
 n = 6
 pts = []
 while n <= 200000:
     t = lex_time(f(n)); pts.append((n, t)); print(n, t, flush=True)
-    if t > 0.05 and len(pts) >= 3: break
+    if t > 0.4 and sum(1 for _, x in pts if x > 0.004) >= 3: break
     n *= 2
 '''
+WORK_SCRIPT = 'import sys, time\nsys.path.insert(0, sys.argv[1] if len(sys.argv)>1 else \'/repo\')\nsys.setrecursionlimit(100000)\nfrom pycparser import c_parser\nFAMS = {\n "nested-switch": lambda n: "void f(void){" + "switch(x){case 1:"*n + ";" + "}"*n + "}",\n "many-cases": lambda n: "void f(void){switch(x){" + "case 1: a; b; case 2: "*n + ";}}",\n "nested-blocks": lambda n: "void f(void){" + "{"*n + ";" + "}"*n + "}",\n "nested-parens": lambda n: "int x = " + "("*n + "1" + ")"*n + ";",\n "binary-chain": lambda n: "int x = 1" + " + 2 * 3"*n + ";",\n "nested-ternary": lambda n: "int x = " + "a ? b : "*n + "c;",\n "nested-struct": lambda n: "struct S {" * n + "int x;" + "} m;"*n ,\n "nested-init": lambda n: "int a[] = " + "{"*n + "1" + "}"*n + ";",\n "many-decls": lambda n: "int a, *b, c[3];"*n,\n "nested-calls": lambda n: "int x = " + "f("*n + "1" + ")"*n + ";",\n "nested-if": lambda n: "void f(void){" + "if (a) "*n + ";}",\n "nested-casts": lambda n: "int x = " + "(int)"*n + "1;",\n "nested-sizeof": lambda n: "int x = " + "sizeof "*n + "1;",\n "postfix-chain": lambda n: "int x = a" + "[1].m->n(2)"*n + ";",\n "pointer-chain": lambda n: "int " + "* const "*n + "p;",\n "array-dims": lambda n: "int a" + "[2]"*n + ";",\n "param-list": lambda n: "void f(" + "int a, "*n + "int z);",\n "enum-list": lambda n: "enum E {" + "A = 1, "*n + "Z};",\n "string-concat": lambda n: "char *s = " + \'"a" \'*n + ";",\n "typedef-chain": lambda n: "typedef int T0;" + "".join(f"typedef T{i} T{i+1};" for i in range(n)),\n "label-chain": lambda n: "void f(void){" + "".join(f"L{i}: " for i in range(n)) + ";}",\n "compound-nesting": lambda n: "void f(void){" + "while (1) { if (x) { "*n + ";" + "} }"*n + "}",\n}\ndef count(text):\n    c=[0]\n    def prof(frame, ev, arg):\n        if ev=="call": c[0]+=1\n    p=c_parser.CParser()\n    sys.setprofile(prof)\n    try:\n        p.parse(text)\n    finally:\n        sys.setprofile(None)\n    return c[0]\nFAMS.update({\n "error-nested-typenames": lambda n: "int x = " + "(int[" * n + "int" + "])0" * n + ";",\n "error-unclosed-parens": lambda n: "int x = " + "(" * n + "1;",\n "error-deep-in-blocks": lambda n: "void f(void){" + "{" * n + "int @;" + "}" * n + "}",\n "error-after-casts": lambda n: "int x = " + "(int)" * n + ";",\n})\ndef count_any(text):\n    try:\n        return count(text)\n    except c_parser.ParseError:\n        return count.last\n_orig_count = count\ndef count(text):\n    c=[0]\n    def prof(frame, ev, arg):\n        if ev=="call": c[0]+=1\n    p=c_parser.CParser()\n    sys.setprofile(prof)\n    try:\n        p.parse(text)\n    except c_parser.ParseError:\n        pass\n    finally:\n        sys.setprofile(None)\n    return c[0]\nnames = sys.argv[2:] or list(FAMS)\nfor nm in names:\n    f=FAMS[nm]; pts=[]\n    for n in (20,40,80,160):\n        try: pts.append(count(f(n)))\n        except Exception as e: pts.append(-1); print("#", nm, n, type(e).__name__, str(e)[:60])\n    print(nm, *pts)\n'
+WORK_FAMILIES = ["nested-switch", "many-cases", "nested-blocks", "nested-parens", "binary-chain", "nested-ternary", "nested-struct",
+                 "nested-init", "many-decls", "nested-calls", "nested-if", "nested-casts", "nested-sizeof", "postfix-chain", "pointer-chain",
+                 "array-dims", "param-list", "enum-list", "string-concat", "typedef-chain", "label-chain", "compound-nesting",
+                 "error-nested-typenames", "error-unclosed-parens", "error-deep-in-blocks", "error-after-casts"]
+
+
+def work_scaling(tier) -> core.Result:
+    """BOUNDED stand-in for the parts of the pipeline that are under no cost contract (ast_transforms, error paths): the number
+    of Python calls made by CParser.parse -- a deterministic count, no timing -- on input families at sizes 20/40/80/160
+    must at most double (+ slack) when the size doubles."""
+    import subprocess
+
+    res = core.Result()
+    try:
+        p = subprocess.run([core.REPLAY_PY, "-c", WORK_SCRIPT, core.REPO] + WORK_FAMILIES, capture_output=True, text=True, timeout=600)
+        out, err = p.stdout, p.stderr
+    except subprocess.TimeoutExpired as e:
+        out = e.stdout.decode() if isinstance(e.stdout, bytes) else (e.stdout or "")
+        err = "TIMEOUT"
+    rows = {}
+    for l in out.splitlines():
+        parts = l.split()
+        if parts and parts[0] in WORK_FAMILIES and len(parts) == 5:
+            rows[parts[0]] = [int(x) for x in parts[1:]]
+    for fam in WORK_FAMILIES:
+        name = f"C16/work/{fam}"
+        pts = rows.get(fam)
+        rep = ("import subprocess, sys, os\n" f"SCRIPT = {WORK_SCRIPT!r}\n"
+               f"p = subprocess.run([sys.executable, '-c', SCRIPT, os.environ.get('VERIF_REPO', {core.REPO!r}), {fam!r}], capture_output=True, text=True, timeout=600)\n"
+               "print(p.stdout)\nv = [int(x) for x in p.stdout.split()[-4:]]\n"
+               "print('REPRODUCED' if min(v) < 0 or (v[2] > 2.08 * v[1] and v[3] > 2.15 * v[2]) else 'NOT-REPRODUCED')\n")
+        if pts is None:
+            st, why = (core.REFUTED, "the parser did not finish the family within 600 s") if err == "TIMEOUT" else (core.UNDECIDED, "no measurement: " + err[-200:])
+        elif min(pts) < 0:
+            st, why = core.REFUTED, f"an exception other than ParseError (RecursionError?) on sizes 20/40/80/160: call counts {pts}"
+        else:
+            r = [pts[i + 1] / max(1, pts[i]) for i in range(3)]
+            # the counts are deterministic; a linear family approaches 2.0 from below, any quadratic component pushes the
+            # later ratios above 2 and growing
+            bad = r[1] > 2.08 and r[2] > 2.15
+            st, why = (core.REFUTED if bad else core.DISCHARGED), f"calls at sizes 20/40/80/160: {pts}; doubling ratios {[round(x, 2) for x in r]}"
+        res.obs.append(core.Ob(name, st, "count", 0.0, why, replay=rep if st == core.REFUTED else None,
+                               functions=["CParser.parse", "ast_transforms.fix_switch_cases"], bounded=True, sample=fam))
+    res.assumptions.append("work-count families: call counts of CParser.parse at four sizes per family (bounded stand-in for cost contracts on ast_transforms and on error paths)")
+    return res
+
+
 TIMING_FAMILIES = ["escape-run-in-string", "escape-run-unterminated-string", "digit-run", "float-digits-no-exponent", "unterminated-char",
                    "bad-escape-run", "identifier-run", "octal-run", "decimal-escapes-with-8-9-closed-char",
                    "decimal-escapes-with-8-9-unterminated", "hex-escapes-closed-char", "hex-then-nonhex-escapes-in-string",
-                   "octal-escapes-closed-char", "x-escapes-without-digits", "mixed-escapes-wide-char"]
+                   "octal-escapes-closed-char", "x-escapes-without-digits", "mixed-escapes-wide-char",
+                   "line-directive-unterminated-filename", "line-directive-filename-backslashes-unterminated",
+                   "line-directive-filename-escapes-closed", "line-directive-digit-run", "line-directive-flag-run", "pragma-long-line",
+                   "pragma-blank-run"]
 
 
 def _time_family(name):
@@ -81,13 +140,28 @@ def regex_timing(tier) -> core.Result:
             big = [(n, t) for n, t in pts if t > 0.004]
             ratios = [big[i + 1][1] / big[i][1] for i in range(len(big) - 1)]
             # super-linear only if two consecutive doublings both cost clearly more than double
-            bad = any(ratios[i] > 3.3 and ratios[i + 1] > 3.3 for i in range(len(ratios) - 1)) or any(t > 5.0 and n < 2000 for n, t in pts)
+            # CPU time (not wall time: the machine may be busy), best of three; super-linear = two consecutive doublings that
+            # each cost more than 3.3x AND end above 0.3 s of CPU (below that, allocator / cache effects dominate)
+            bad = any(ratios[i] > 3.3 and ratios[i + 1] > 3.3 and big[i + 2][1] > 0.3 for i in range(len(ratios) - 1)) or any(t > 5.0 and n < 2000 for n, t in pts)
             why = "sizes/times " + ", ".join(f"{n}:{t * 1e3:.1f}ms" for n, t in pts[-4:])
-        rep = ("import subprocess, sys\n"
-               f"print('family {name}: see TIMING_SCRIPT in /verif/props/C16.py'); print('NOT-REPRODUCED')\n")
+        rep = ("import subprocess, sys, os\n"
+               f"SCRIPT = {TIMING_SCRIPT!r}\n"
+               f"repo = os.environ.get('VERIF_REPO', {core.REPO!r})\n"
+               "try:\n"
+               f"    p = subprocess.run([sys.executable, '-c', SCRIPT, repo, {name!r}], capture_output=True, text=True, timeout=25)\n"
+               "    pts = [l.split() for l in p.stdout.splitlines() if l.strip()]\n"
+               "    print('sizes/times:', pts[-4:])\n"
+               "    slow = any(float(t) > 5.0 and int(n) < 2000 for n, t in pts)\n"
+               "    big = [(int(n), float(t)) for n, t in pts if float(t) > 0.004]\n"
+               "    r = [big[i + 1][1] / big[i][1] for i in range(len(big) - 1)]\n"
+               "    slow = slow or any(r[i] > 3.3 and r[i + 1] > 3.3 and big[i + 2][1] > 0.3 for i in range(len(r) - 1))\n"
+
+               "    print('REPRODUCED' if slow else 'NOT-REPRODUCED')\n"
+               "except subprocess.TimeoutExpired as e:\n"
+               f"    print('family {name}: the real lexer did not finish within 25 s on inputs of doubling size starting at 6 repetitions'); print('REPRODUCED')\n")
         st = core.REFUTED if bad else (core.UNDECIDED if err and err != "TIMEOUT" else core.DISCHARGED)
         res.obs.append(core.Ob(f"C16/timing/lexer-regex/{name}", st, "timing", 0.0, why, replay=rep if bad else None,
-                               functions=["c_lexer._regex_rules"], bounded=True, sample=name))
+                               functions=["c_lexer._regex_rules" if "directive" not in name and "pragma" not in name else ("CLexer._handle_ppline" if "line" in name else "CLexer._handle_pppragma")], bounded=True, sample=name))
     res.assumptions.append("cost of one `re` match is linear in the text it inspects for the 24 rules: ASSUMED; the timing family is a bounded stand-in")
     return res
 
@@ -102,6 +176,11 @@ def run(tier, seed):
     # each token is lexed once however often the parser backtracks; the lexer loop makes progress on every iteration
     res.add(run_functions(TS.FUNCTIONS + ["CLexer.token#progress"] + LX.PROGRESS_VARIANTS, "C16/smt", tier))
     res.add(regex_timing(tier))
+    res.add(work_scaling(tier))
+    # a handler that catches ParseError and tries again makes error paths exponential in the nesting depth: the error
+    # channel is never intercepted
+    from props import tables
+    res.add(tables.error_channel_obligations("C16"))
     res.assumptions.append("cost model: Python-level call events inside c_parser/c_lexer; loops that only walk attribute chains "
                            "(_type_modify_decl tail walks) cost 0 in this model")
     return res
